@@ -77,6 +77,9 @@ def plan(tier):
                 if tier == "quick" and st == "local" and pl not in ("kept_body", "root_body"):
                     continue
                 items.append((sp, [e for e in ents if e != "skipped_producer"], st, d, {P}, (False, ("inproc", "restart"))))
+            if len(sp["eps"]) == 1 and pl in ("kept_body", "root_body", "kept_datafn"):
+                # two long-lived processes with object caches alternate: one produces, the other reads what is now at the path
+                items.append((sp, ["produce", "read", "both"], "local_cache2", 3 if tier != "quick" or pl == "kept_body" else 2, {P}, (False, ("inproc", "switch"))))
             if len(sp["eps"]) == 1:
                 # depth 3 over the entries that matter for invalidation: produce, read, both
                 items.append((sp, ["produce", "read", "both"], "memory", 3, {P}, (False, ("inproc",))))
